@@ -453,6 +453,7 @@ def compare(case, outputs, stats):
         stats.fail({"kind": "driver-output-count"}, {"text": case["text"]}, "driver printed %d cases, expected %d" % (len(outputs), len(exp)))
         return
     nfail = 0
+    per_sig = {}
     for steps_want, steps_got in zip(exp, outputs):
         for w, g in zip(steps_want, steps_got):
             changed = w["buf"] != w["before"]
@@ -475,9 +476,12 @@ def compare(case, outputs, stats):
                     break
             if bad is None and w["ok"] and obs.get("read") is not None and g.get("read") != obs["read"]:
                 bad = "read"
-            if bad and nfail < 10:
-                nfail += 1
+            if bad:
                 sig = {"kind": "write-mismatch", "obs": bad, "field": "enum-signed" if d["signed_enum"] else field_class(d, None), "width": "64" if d["bits"] == 64 else ("<64" if not d["virtual"] else "-")}
+                sk = vlib.h(sig)
+                per_sig[sk] = per_sig.get(sk, 0) + 1
+            if bad and per_sig[sk] <= 3:  # capped per signature, so a recorded finding cannot use up the budget of another defect
+                nfail += 1
                 stats.fail(sig, {"text": case["text"], "target": w["target"], "before": w["before"].hex(), "value": w["value"]}, "%s of %s(%s) <- %d on buffer %s: generated code %s=%s, reference %s=%s (reference: could=%s ok=%s after=%s)" % (bad, w["target"], d["kind"] + str(d["bits"]), w["value"], w["before"].hex(), bad, g.get(bad), bad, obs[bad], w["could"], w["ok"], w["buf"].hex()))
                 break
             if bad:
